@@ -83,6 +83,13 @@ impl<F: TryFuture> TryJoinAll<F> {
     }
 }
 
+impl<F: TryFuture> Drop for TryJoinAll<F> {
+    fn drop(&mut self) {
+        // `MaybeUninit` never drops its contents: release what was written so far
+        self.drop_outputs(None);
+    }
+}
+
 impl<F: TryFuture> Future for TryJoinAll<F> {
     type Output = Result<Vec<F::Ok>, F::Err>;
 
